@@ -15,7 +15,16 @@ import (
 type Jitter struct {
 	B []byte
 	n int64
+	// budgets: a byte string like {0x80, 0xb9} asks for a one-byte read followed by a sleep, forever - at
+	// ~1 ms per sleep that is 1 KB/s, and a 600 KB build looks like a hang. The perturbation is bounded
+	// instead: after MaxSleeps sleeps a pause only yields, after MaxSliced sliced reads a reader reads normally.
+	sleeps int64
 }
+
+const (
+	MaxSleeps = 96
+	MaxSliced = 384
+)
 
 func NewJitter(b []byte, start int) *Jitter { return &Jitter{B: b, n: int64(start)} }
 
@@ -33,6 +42,10 @@ func (j *Jitter) Pause(b byte) {
 	case 0:
 		runtime.Gosched()
 	case 1:
+		if atomic.AddInt64(&j.sleeps, 1) > MaxSleeps {
+			runtime.Gosched()
+			return
+		}
 		time.Sleep(time.Duration(b>>3) * 5 * time.Microsecond)
 	}
 }
@@ -53,6 +66,7 @@ type jitterReader struct {
 	// readers do. Allowed by the io.Reader contract.
 	dataErr bool
 	noPause bool
+	sliced  int
 	pending []byte
 	err     error
 }
@@ -66,7 +80,8 @@ func NewSlicedReader(r io.Reader, j *Jitter) io.Reader {
 
 func (jr *jitterReader) Read(p []byte) (int, error) {
 	b := jr.j.Next()
-	if len(p) > 1 && b&0x80 != 0 {
+	if len(p) > 1 && b&0x80 != 0 && jr.sliced < MaxSliced {
+		jr.sliced++
 		n := 1 + (int(b&0x7f)*len(p))/128
 		if n > len(p) {
 			n = len(p)
